@@ -52,6 +52,9 @@ func (s *ContextScope) Kill() {
 
 // Stop stop the scope context without error
 func (s *ContextScope) Stop() {
+	// check-then-close must be atomic: concurrent callers would close the channel twice
+	s.errorsMU.Lock()
+	defer s.errorsMU.Unlock()
 	if !s.IsDone() {
 		close(s.done)
 	}
